@@ -1,12 +1,12 @@
 package rules
 
 import (
-	"sort"
 	"fmt"
 	"go/constant"
 	"go/token"
 	"go/types"
 	"regexp"
+	"sort"
 	"strconv"
 	"strings"
 
@@ -420,15 +420,21 @@ func runC11(c *Ctx) {
 			gs := normExpr(rir, c.exprGuardsOf(rir, ups[0].(ssa.Instruction)))
 			a := normExpr(rir, []string{c.exprDesc(ups[0].Common().Args[1])})[0]
 			okG := false
+			extraG := false
 			for _, g := range gs {
-				if g == "$0.autoRefresh" {
+				switch g {
+				case "$0.autoRefresh":
 					okG = true
+				case "!$1":
+				default:
+					extraG = true // the update is asked under a further condition
 				}
 			}
+			okG = okG && !extraG
 			ok = okG && a == "$0.dirErrors" && normExpr(rir, []string{c.exprDesc(ups[0].Common().Args[0])})[0] == "$0.watch"
 			// refresh happens when update said true
 			refs := c.callsTo(rir, false, "cdi", "(*Cache).refresh")
-			if len(refs) == 1 {
+			if len(refs) >= 1 && len(refs) <= 2 {
 				var es []ir.Edge
 				for _, iff := range ir.Ifs(rir) {
 					if iff.Cond == ups[0].Value() {
@@ -438,14 +444,22 @@ func runC11(c *Ctx) {
 						es = append(es, ir.Edge{From: iff.Block(), Succ: 0})
 					}
 				}
-				upTrue := false
+				// each of the two deciding edges leads to a refresh, and no refresh is
+				// reached any other way
 				for _, e := range es {
 					e := e
-					if ir.CanReach(rir, ir.PathQuery{FromEdge: &e, To: refs[0].(ssa.Instruction)}) {
-						upTrue = true
+					reach := false
+					for _, ref := range refs {
+						if ir.CanReach(rir, ir.PathQuery{FromEdge: &e, To: ref.(ssa.Instruction)}) {
+							reach = true
+						}
 					}
+					ok = ok && reach
 				}
-				ok = ok && upTrue && len(es) == 2 && ir.OnlyViaEdges(rir, refs[0].(ssa.Instruction), es)
+				ok = ok && len(es) == 2
+				for _, ref := range refs {
+					ok = ok && ir.OnlyViaEdges(rir, ref.(ssa.Instruction), es)
+				}
 			} else {
 				ok = false
 			}
